@@ -15,6 +15,9 @@ namespace Stackage
 structure Closures where
   valid : Nat → Option Nat := fun _ => none     -- validity policy: `some e` = rejects with error class e
   present : Nat → Text := fun _ => []           -- presentation policy result
+  marshal : Nat → Option Nat := fun _ => none   -- marshaler result (error class or nil)
+  unmarshal : Nat → List Val × Option Nat := fun _ => ([], none)   -- unmarshaler result
+  evaluate : Nat → Val × Option Nat := fun _ => (.nil, none)       -- evaluator result
 
 namespace Cfg
 def flag (c : Cfg) (f : Nat) : Bool := c.kind != 0 && Gen.cfgFlag_positive c.opt f
